@@ -336,16 +336,16 @@ def long_cases(seed, tier):
 
 def gen_cases(seed, tier):
     rnd = random.Random(seed)
-    scale = 1 if tier == 'quick' else 12
+    scale = 1 if tier == 'quick' else 40
     cases = [{'kind': 'intr', 'line': 'I', 'expect': '', 'sig': 0, 'nt': False}]
     for k, p, c in FIPS_BLOCKS:
         cases.append({'kind': 'block', 'line': 'B %s %s 0 0' % (k, p), 'expect': c,
                       'sig': sig('Bfips', len(k)), 'nt': True, 'meta': {'key': k, 'blocks': p}})
     for _ in range(160 * scale):
         cases.append(block_case(rnd))
-    for _ in range(60 * scale):
+    for _ in range(120 * scale if tier == 'quick' else 60 * scale):
         cases += stream_group(rnd)
-    for _ in range(50 * scale):
+    for _ in range(100 * scale if tier == 'quick' else 50 * scale):
         cases.append(reinit_case(rnd))
     # every short length under a byte-at-a-time and a one-call partition
     for n in rnd.sample(range(0, 70), 6):
